@@ -466,6 +466,13 @@ class PoolAdapter(Adapter):
             if id(v_) in ids:
                 bad.append("identity"); det["identity"] = f"slots {ids[id(v_)]} and {k_} hold the same object"
             ids[id(v_)] = k_
+        live_ = [(k_, v_) for k_, v_ in real.items() if hasattr(v_, "frequencies")]
+        for x_ in range(len(live_)):
+            for y_ in range(x_ + 1, len(live_)):
+                for attr in ("frequencies", "errors2"):
+                    a_, b_ = getattr(live_[x_][1], attr), getattr(live_[y_][1], attr)
+                    if isinstance(a_, np.ndarray) and isinstance(b_, np.ndarray) and a_.size and np.shares_memory(a_, b_):
+                        bad.append("aliasing"); det["aliasing"] = f"slots {live_[x_][0]} and {live_[y_][0]} share the memory of their {attr}"
         refusal = action in REFUSALS
         if refusal:
             if obs["exc"] is None and "refused" in view:
